@@ -106,7 +106,11 @@ PickOp ==
       r == RandomElement({x \in 1..10 : Len(hist) >= 0})  \* state-dependent: not cached as a constant
       fresh == {o \in A : IF o.op = "Prevote" THEN pv[o.v] = {} ELSE pc[o.v] = {}}
       pre == {o \in fresh : o.op = "Prevote"}
-  IN IF r <= 3 /\ pre # {} THEN RandomElement(pre)
+      (* with non-uniform weights, half of the draws go to the voters that weigh more than the lightest one *)
+      minW == CHOOSE m \in {W[v] : v \in Voters} : \A v \in Voters : m <= W[v]
+      heavy == {o \in fresh : W[o.v] > minW}
+  IN IF r >= 6 /\ heavy # {} THEN RandomElement(heavy)
+     ELSE IF r <= 3 /\ pre # {} THEN RandomElement(pre)
      ELSE IF r <= 7 /\ fresh # {} THEN RandomElement(fresh)
      ELSE IF A # {} THEN RandomElement(A) ELSE RandomElement(Ops)
 NextRand == (\E o \in {PickOp} : StepG(o)) \/ Finish
